@@ -159,7 +159,7 @@ def run(src, tier, seed):
     except Unmodelled as e:
         raise AnalysisBroken('THandler::assertLits is outside the modelled subset: %s' % e)
     # ---- R5 array lemmas: replacing a term by its e-graph representative is justified in the explanation
-    r = res.rule('representative-use-justified', 'in the array solver\'s functions that fill an explanation collection: once the representative r = getRoot(x) of a parameter x is handed on to '
+    r = res.rule('representative-use-justified', 'in the array solver\'s functions that fill an explanation collection: once the representative r = getRoot(x) of a parameter or local x is handed on to '
                  'another call, every path to the exit has recorded the e-graph explanation of x = r (or has established x == r): otherwise the lemma built from the collection lacks the '
                  'literals that make x and r equal and is not valid in the theory of arrays', floor=1)
     from walk import Client, Engine
@@ -172,7 +172,7 @@ def run(src, tier, seed):
 
         def on_decl(self, n, s):
             i = see_through(n.get('init')) if n.get('init') is not None else None
-            if isinstance(i, dict) and i.get('k') == 'call' and mname(i) == 'getRoot' and i.get('a') and path_of(i['a'][0]) in self.params:
+            if isinstance(i, dict) and i.get('k') == 'call' and mname(i) == 'getRoot' and i.get('a') and path_of(i['a'][0]) and '.' not in path_of(i['a'][0]):
                 pairs, used, done = s
                 return ((pairs | {(path_of(i['a'][0]), n['n'])}, used, done),)
             return (s,)
@@ -215,7 +215,8 @@ def run(src, tier, seed):
                 self.exits.append(s)
     n_f = 0
     for f in fx.F.values():
-        if not f.get('body') or not f['name'].startswith('opensmt::ArraySolver') or not any('ExplanationCollection' in (p_.get('t') or '') for p_ in f['params']):
+        fills = any('ExplanationCollection' in (p_.get('t') or '') for p_ in f.get('params', [])) or 'ExplanationCollection' in (f.get('ret') or '')
+        if not f.get('body') or not f['name'].startswith('opensmt::ArraySolver') or not fills:
             continue
         if not any(is_call(x, 'getRoot') for x in fwalk(f)):
             continue
